@@ -13,10 +13,17 @@ SKIP_TYPES = (logging.Logger, logging.Handler, types.ModuleType, types.FunctionT
 SKIP_KEYS = frozenset()
 
 
-def canon_tokens(root, skip_keys=SKIP_KEYS):
+def canon_tokens(root, skip_keys=SKIP_KEYS, tnorm=None):
+    """tnorm=(origin datetime, cut seconds): datetimes are written relative to origin, anything older than cut as 'old'
+    (time-translation normalisation, used by engine C; argued in DESIGN.md)"""
     out = []
     ids = {}
     ap = out.append
+    ctx = None
+    if tnorm is not None:
+        from .common import hrs
+
+        ctx = dict(origin_h=hrs(tnorm[0]), cut_h=Fraction(tnorm[1], 3600))
 
     def w(o):
         if o is None or o is True or o is False:
@@ -30,7 +37,11 @@ def canon_tokens(root, skip_keys=SKIP_KEYS):
             ap("Fr%s/%s" % (o.numerator, o.denominator))
             return
         if t is datetime:
-            ap(o.isoformat())
+            if tnorm is None:
+                ap(o.isoformat())
+            else:
+                rel = (o - tnorm[0]).total_seconds()
+                ap("old" if rel < -tnorm[1] else "t%r" % rel)
             return
         if t is timedelta:
             ap("td%r" % o.total_seconds())
@@ -70,6 +81,12 @@ def canon_tokens(root, skip_keys=SKIP_KEYS):
             ap("@%d" % i)
             return
         ids[id(o)] = len(ids)
+        cn = getattr(o, "__canon__", None)
+        if cn is not None:
+            ap("<" + t.__name__)
+            w(cn(ctx))
+            ap(">")
+            return
         if isinstance(o, dict):
             ap("{")
             for k, v in o.items():
@@ -125,6 +142,6 @@ def canon_tokens(root, skip_keys=SKIP_KEYS):
     return out
 
 
-def fingerprint(root, skip_keys=SKIP_KEYS):
-    toks = canon_tokens(root, skip_keys)
+def fingerprint(root, skip_keys=SKIP_KEYS, tnorm=None):
+    toks = canon_tokens(root, skip_keys, tnorm)
     return hashlib.md5("\x1f".join(toks).encode()).digest()
